@@ -166,6 +166,8 @@ def parseEp (e : String) : Option (Str × List Str) :=
 def parseSrv (s : String) : Option Srv :=
   match s.splitOn "=" with
   | [k, v] =>
+    -- "cfg!": the server object is built by the real configuration parser from the same description
+    let k := if k.startsWith "cfg!" then (k.drop 4).toString else k
     match k with
     | "socket" => some (.plain .socket (listTok v))
     | "packet" => some (.plain .packet (listTok v))
